@@ -181,7 +181,13 @@ def run(ctx):
                 else:
                     okq = False
             ctx.inst("R03.3", "get_witness:inputs:value-push", okp, it["node"]["sp"], "each input must contribute exactly one Some(model value) per step, unconditionally")
-            ctx.inst("R03.3", "get_witness:inputs:step-push", okq, (outer or it)["node"]["sp"], "wit.inputs must receive one fresh vector per step, built from all inputs")
+            if outer is not None and okq:
+                # one vector per step of *every* witness: the number of vectors is the only record of the trace length, so the step loop may not
+                # sit under a condition (`if !sys.inputs.is_empty() { for k in .. }` yields a zero-step witness for a system without inputs)
+                guards = norm.path_conditions(ix, outer["node"])
+                if guards:
+                    okq = False
+            ctx.inst("R03.3", "get_witness:inputs:step-push", okq, (outer or it)["node"]["sp"], "wit.inputs must receive one fresh vector per step, built from all inputs, whatever the system looks like (the step loop may not be conditional)")
             no_skip = plain_names == ["iter"] and not skips
             ctx.inst("R03.3", "get_witness:inputs:all", no_skip, it["node"]["sp"], "the input loop skips or filters inputs: %s" % show(it["src"]))
         else:
